@@ -47,7 +47,8 @@ def positive_literals(ctx, crate, crs, tag):
         ENC + "on_requirement_candidates_available": "helper variable of the at-most-one encoding",
     }
     sites = q.callers_of(crate, POS)
-    ctx.floor(R, "VariableId::positive call sites", len(sites), 4)
+    # vacuity guard: the three mechanisms that legitimately create positive literals are all still seen
+    ctx.floor(R, "functions creating positive literals", len({q.enclosing_fn(crate, b) for b, i, t in sites}), 3)
     for b, i, t in sites:
         if b.crate.is_test:
             continue
@@ -89,7 +90,7 @@ def true_decisions(ctx, crate, crs, tag):
     R = "true-decisions" + tag
     allowed_true = {SOLVER + "run_sat": "root / soft solvable of the run", SOLVER + "set_propagate_learn": "candidate chosen by decide()"}
     sites = q.callers_of(crate, DEC_NEW)
-    ctx.floor(R, "Decision::new call sites", len(sites), 7)
+    ctx.floor(R, "Decision::new call sites", len(sites), 5)
     n_true = 0
     for b, i, t in sites:
         if b.crate.is_test:
@@ -99,8 +100,14 @@ def true_decisions(ctx, crate, crs, tag):
         vd, _ = q.origin_thru(b, v, transparent=set())
         if (v.get("k") == "const" and v.get("v") is True) or (vd["k"] == "const" and vd["c"].get("v") is True):
             n_true += 1
-            ctx.ob(R, fn, "Decision(_, true, _)", fn in allowed_true, where_call(b, i),
-                   allowed_true.get(fn, "a solvable is decided true outside the root/soft decision and the decide() choice"))
+            ok_true = fn in allowed_true
+            why = allowed_true.get(fn, "a solvable is decided true outside the root/soft decision and the decide() choice")
+            if not ok_true:
+                # the helper may have been inlined by hand: the decided variable must then be decide()'s own result
+                lv = q.leaves(b, t["args"][0])
+                if "call:decide" in lv and not any(x.startswith("unknown:") for x in lv):
+                    ok_true, why = True, "candidate chosen by decide() (decided in place)"
+            ctx.ob(R, fn, "Decision(_, true, _)", ok_true, where_call(b, i), why)
         elif (v.get("k") == "const" and v.get("v") is False) or (vd["k"] == "const" and vd["c"].get("v") is False):
             ctx.ob(R, fn, "Decision(_, false, _)", True, where_call(b, i), "constant false")
         else:
